@@ -199,13 +199,46 @@ type actorSpec struct {
 	name, kind, dir string
 	abs, rel        []string
 	src, dst        []string // operands of Rename / Link
+	ops             []string // single-path calls (default pathOps)
+	users           []string // SetUser arguments
+	umasks          []uint32 // SetUMask arguments
 }
 
-func actorSpecs(tier string) []actorSpec {
+// actorSpecs returns the actors and their alphabets. The core alphabet is a
+// subset (fewer operands, fewer calls) explored one level deeper.
+func actorSpecs(tier string, core bool) []actorSpec {
+	if core {
+		ops := []string{"Mkdir", "WriteFile", "Remove", "RemoveAll", "Chmod", "Stat", "ReadDir", "ReadFile", "Chdir"}
+
+		return []actorSpec{
+			{
+				name: "parent", kind: "parent", dir: "/", ops: ops,
+				abs: []string{"/p", "/p/q", "/p/q/f", "/p/new"},
+				src: []string{"/p", "/p/q", "/p/q/f"}, dst: []string{"/new", "/p/new"},
+			},
+			{
+				name: "V1", kind: "view", dir: "/p", ops: ops,
+				abs: []string{"/", "/q", "/q/f", "/new", "/../o/h", "/q/../.."},
+				rel: []string{"f", "..", "new"},
+				src: []string{"/q/f", "/q"}, dst: []string{"/new", "/../new"},
+				users: []string{"u1", "root"}, umasks: []uint32{0o077},
+			},
+			{
+				name: "V2", kind: "nested", dir: "/p/q", ops: ops,
+				abs: []string{"/", "/f", "/new", "/../g"},
+				rel: []string{"f", ".."},
+				src: []string{"/f"}, dst: []string{"/new", "/../new"},
+				users: []string{"u2", "root"}, umasks: []uint32{0o027},
+			},
+		}
+	}
+
 	parentAbs := []string{"/", "/p", "/p/q", "/p/q/f", "/p/g", "/p/new", "/p/q/new", "/o", "/o/h", "/new", "/p/q/../.."}
 	parentRel := []string{"f", "q/f", "p/g", "..", "new"}
 	parentSrc := []string{"/p", "/p/q", "/p/q/f", "/p/g", "/o/h", "/o"}
 	parentDst := []string{"/new", "/p/new", "/p/q/new", "/o/new", "/p/g", "/p/q"}
+	users := []string{"u1", "u2", "root"}
+	umasks := []uint32{0, 0o027, 0o077}
 
 	specs := []actorSpec{
 		{
@@ -213,14 +246,14 @@ func actorSpecs(tier string) []actorSpec {
 			abs: parentAbs, rel: parentRel, src: parentSrc, dst: parentDst,
 		},
 		{
-			name: "V1", kind: "view", dir: "/p",
+			name: "V1", kind: "view", dir: "/p", users: users, umasks: umasks,
 			abs: []string{"/", "/q", "/q/f", "/g", "/new", "/q/new", "/..", "/../o", "/../o/h", "/q/../..", "/q/../../o/h", "/p", "/o"},
 			rel: []string{"f", "q/f", "..", "../..", "../o/h", "new"},
 			src: []string{"/q", "/q/f", "/g", "/", "/../o/h", "f"},
 			dst: []string{"/new", "/q/new", "/../new", "/../o/new", "/g", "/q", "new"},
 		},
 		{
-			name: "V2", kind: "nested", dir: "/p/q",
+			name: "V2", kind: "nested", dir: "/p/q", users: users, umasks: umasks,
 			abs: []string{"/", "/f", "/new", "/..", "/../g", "/../../o/h", "/f/../..", "/q", "/p", "/o"},
 			rel: []string{"f", "..", "../..", "../g", "../../o/h", "new"},
 			src: []string{"/f", "/", "/../g", "/../../o/h", "f"},
@@ -230,7 +263,7 @@ func actorSpecs(tier string) []actorSpec {
 
 	if tier == "thorough" {
 		specs = append(specs, actorSpec{
-			name: "V0", kind: "rootview", dir: "/",
+			name: "V0", kind: "rootview", dir: "/", users: users, umasks: umasks,
 			abs: append(append([]string{}, parentAbs...), "/..", "/../o/h"),
 			rel: parentRel, src: parentSrc, dst: parentDst,
 		})
@@ -245,8 +278,13 @@ func buildOps(specs []actorSpec) []op {
 	for ai, sp := range specs {
 		add := func(c fsx.Call) { ops = append(ops, op{actor: ai, c: c}) }
 
+		single := sp.ops
+		if single == nil {
+			single = pathOps
+		}
+
 		for _, p := range append(append([]string{}, sp.abs...), sp.rel...) {
-			for _, o := range pathOps {
+			for _, o := range single {
 				c := fsx.Call{Op: o, A: p}
 
 				switch o {
@@ -276,14 +314,12 @@ func buildOps(specs []actorSpec) []op {
 
 		add(fsx.Call{Op: "Getwd"})
 
-		if sp.kind != "parent" {
-			for _, u := range []string{"u1", "u2", "root"} {
-				add(fsx.Call{Op: "SetUser", A: u})
-			}
+		for _, u := range sp.users {
+			add(fsx.Call{Op: "SetUser", A: u})
+		}
 
-			for _, m := range []uint32{0, 0o027, 0o077} {
-				add(fsx.Call{Op: "SetUMask", Perm: m})
-			}
+		for _, m := range sp.umasks {
+			add(fsx.Call{Op: "SetUMask", Perm: m})
 		}
 	}
 
@@ -458,8 +494,9 @@ func equalLines(a, b []string) bool {
 	return true
 }
 
-// treeClass summarises a dump difference as tags over paths:
-// missing:<p> (reference only), extra:<p> (observed only), attr:<p>.
+// treeClass summarises a dump difference as the kinds of difference present:
+// missing (reference only), extra (observed only), attr (both, different
+// attributes), cycle (the observed tree contains a directory cycle).
 func treeClass(want, got []string) string {
 	ow, og := diffSets(want, got)
 	wp := map[string]bool{}
@@ -468,32 +505,38 @@ func treeClass(want, got []string) string {
 		wp[pathOf(l)] = true
 	}
 
-	var tags []string
-
+	kinds := map[string]bool{}
 	gp := map[string]bool{}
 
 	for _, l := range og {
 		p := pathOf(l)
 		gp[p] = true
 
-		if wp[p] {
-			tags = append(tags, "attr:"+p)
-		} else {
-			tags = append(tags, "extra:"+p)
+		switch {
+		case strings.Contains(l, "!cycle"):
+			kinds["cycle"] = true
+		case wp[p]:
+			kinds["attr"] = true
+		default:
+			kinds["extra"] = true
 		}
 	}
 
 	for _, l := range ow {
 		if p := pathOf(l); !gp[p] {
-			tags = append(tags, "missing:"+p)
+			kinds["missing"] = true
 		}
 	}
 
-	if len(tags) > 5 {
-		tags = append(tags[:5], "...")
+	var tags []string
+
+	for _, k := range []string{"attr", "extra", "missing", "cycle"} {
+		if kinds[k] {
+			tags = append(tags, k)
+		}
 	}
 
-	return strings.Join(tags, " ")
+	return strings.Join(tags, "+")
 }
 
 func clip(s string) string {
